@@ -4,6 +4,8 @@ import (
 	"go/token"
 	"go/types"
 	"reflect"
+
+	"gosym/term"
 )
 
 // Minimal reflection: only what pure libraries need at init or for simple kind tests.
@@ -123,5 +125,112 @@ func init() {
 	reg("reflect.TypeOf", typeOf)
 	reg("(reflect.Kind).String", func(m *Machine, fr *frame, a []Value) Value {
 		return reflect.Kind(a[0].(interface{ Int() int64 }).Int()).String()
+	})
+}
+
+// deepEqual models reflect.DeepEqual on two values of static type t: identical pointers,
+// maps and slices are equal, otherwise the referenced contents are compared; scalars give
+// a term (the result is one non-forking conjunction). Functions are equal only when both
+// are nil; map comparison needs concrete keys.
+func (m *Machine) deepEqual(t types.Type, x, y Value, seen map[[2]*Value]bool) *term.T {
+	tb := m.tb
+	switch u := t.Underlying().(type) {
+	case *types.Interface:
+		xi, yi := x.(Iface), y.(Iface)
+		if xi.T == nil || yi.T == nil {
+			return tb.BoolC(xi.T == nil && yi.T == nil)
+		}
+		if !types.Identical(xi.T, yi.T) {
+			return tb.False()
+		}
+		return m.deepEqual(xi.T, xi.V, yi.V, seen)
+	case *types.Pointer:
+		xp, yp := x.(*Value), y.(*Value)
+		if xp == yp {
+			return tb.True()
+		}
+		if xp == nil || yp == nil {
+			return tb.False()
+		}
+		key := [2]*Value{xp, yp}
+		if seen[key] {
+			return tb.True()
+		}
+		seen[key] = true
+		return m.deepEqual(u.Elem(), *xp, *yp, seen)
+	case *types.Struct:
+		xs, ok1 := x.(Struct)
+		ys, ok2 := y.(Struct)
+		if !ok1 || !ok2 {
+			return m.equals(t, x, y) // modelled struct types (time.Time, ...)
+		}
+		r := tb.True()
+		for i := 0; i < u.NumFields(); i++ {
+			r = tb.And(r, m.deepEqual(u.Field(i).Type(), xs[i], ys[i], seen))
+			if r.IsFalse() {
+				return r
+			}
+		}
+		return r
+	case *types.Array:
+		xa, ya := x.(Array), y.(Array)
+		r := tb.True()
+		for i := range xa {
+			r = tb.And(r, m.deepEqual(u.Elem(), xa[i], ya[i], seen))
+		}
+		return r
+	case *types.Slice:
+		xs, _ := x.([]Value)
+		ys, _ := y.([]Value)
+		if (xs == nil) != (ys == nil) || len(xs) != len(ys) {
+			return tb.False()
+		}
+		r := tb.True()
+		for i := range xs {
+			r = tb.And(r, m.deepEqual(u.Elem(), xs[i], ys[i], seen))
+			if r.IsFalse() {
+				return r
+			}
+		}
+		return r
+	case *types.Map:
+		xm, _ := x.(*Map)
+		ym, _ := y.(*Map)
+		if xm == ym {
+			return tb.True()
+		}
+		if xm == nil || ym == nil || len(xm.ents) != len(ym.ents) {
+			return tb.False()
+		}
+		if xm.symKeys > 0 || ym.symKeys > 0 {
+			m.unsupported("reflect.DeepEqual on maps with symbolic keys")
+		}
+		r := tb.True()
+		for _, e := range xm.ents {
+			o := m.mapFind(ym, e.k)
+			if o == nil {
+				return tb.False()
+			}
+			r = tb.And(r, m.deepEqual(u.Elem(), e.v, o.v, seen))
+		}
+		return r
+	case *types.Signature:
+		return tb.BoolC(isNilFunc(x) && isNilFunc(y))
+	case *types.Chan:
+		return m.equals(t, x, y)
+	}
+	return m.equals(t, x, y)
+}
+
+func init() {
+	reg("reflect.DeepEqual", func(m *Machine, fr *frame, a []Value) Value {
+		x, y := a[0].(Iface), a[1].(Iface)
+		if x.T == nil || y.T == nil {
+			return m.tb.BoolC(x.T == nil && y.T == nil)
+		}
+		if !types.Identical(x.T, y.T) {
+			return m.tb.False()
+		}
+		return m.deepEqual(x.T, x.V, y.V, map[[2]*Value]bool{})
 	})
 }
